@@ -12,7 +12,8 @@ env=dict(os.environ,GOFLAGS='-mod=mod',GOPROXY='off',GOSUMDB='off',GOTOOLCHAIN='
 def run(seed):
     tmp=tempfile.mkdtemp(prefix='seedmx-',dir=os.environ.get('TMPDIR','/var/tmp'))
     try:
-        subprocess.run(['rsync','-a','--exclude','.git','/repo/',tmp+'/'],check=True)
+        # the committed tree (HEAD), so that a working-tree experiment in /repo cannot pollute the matrix
+        subprocess.run('git -C /repo archive HEAD | tar -x -C '+tmp,shell=True,check=True)
         ap=subprocess.run(['git','apply','--whitespace=nowarn',f'{V}/seeded/{seed}/patch.diff'],cwd=tmp,capture_output=True,text=True)
         if ap.returncode!=0: return seed,None,'patch does not apply: '+ap.stderr.strip()[:200]
         det,err=[],[]
